@@ -85,11 +85,12 @@ def run_rt_property(mod, tier, seed, replay=None):
     prop = mod.PROP
     out = Outcome()
     rng = Rng(seed ^ vlib.hash_int(prop))
+    # ---- translators first: the generated Coq files must reflect /repo's current tree before anything is proved or extracted
+    pre_broken = mod.pre() if hasattr(mod, "pre") else []
     # ---- prove
     proof = vlib.prove(mod.PROP_V)
     # ---- build runner + harness from /repo's current tree
     runner, rerr = vlib.build_runner()
-    pre_broken = mod.pre() if hasattr(mod, "pre") else []
     if hasattr(mod, "build_harness"):
         harness, herr, hdt = mod.build_harness(tier)
     else:
